@@ -959,3 +959,36 @@ def _kf_c05(self, tier):
 
 
 C05.kf_cases = _kf_c05
+
+
+from .families import prssfam  # noqa: E402
+
+
+@_register
+class C15(Spec):
+    check_id = 'C15'
+    family = 'prss'
+    title = 'pseudorandom secret sharing is consistent for every key assignment'
+    technique = ("deterministic simulation of the real key distribution (handshake under chunking/staggered starts); every "
+                 "party evaluates PRSS locally; god's-eye interpolation with an independent PRF re-implementation")
+    quick = {'runs': 3000, 'wall': 75}
+    thorough = {'runs': 500000, 'wall': 900}
+    expected_probes = ('prss_share', 'prss_zero', 'prss_values_checked')
+
+    def make_case(self, seed, tier):
+        import os
+        rng = random.Random(f'C15/{seed}')
+        pairs = [(m, t) for m in range(1, 8) for t in range((m + 1) // 2)]
+        m, t = pairs[seed % len(pairs)]
+        cfg = sample_cfg(rng, tier, m_min=m, m_max=m)
+        cfg.t = t
+        cfg.no_prss = False
+        prog = prssfam.gen(rng, cfg, tier, numpy=os.environ.get('DSIM_NUMPY') == '1')
+        return {'family': 'prss', 'cfg': cfg.to_json(), 'prog': prog, 'seed': seed,
+                'start_delays': sample_start_delays(rng, cfg.m)}
+
+    def nontrivial(self, case, res):
+        return case['cfg']['t'] >= 1 and res.info.get('probes', {}).get('prss_values_checked', 0) > 0
+
+    def sample(self, case, res):
+        return {'seed': case['seed'], 'cfg': case['cfg'], 'prog': case['prog']}
